@@ -1125,3 +1125,17 @@ func init() {
 		return nil, nil
 	})
 }
+
+func init() {
+	// maps.Clone -> runtime clone (linkname): shallow copy
+	reg("maps.clone", func(in *Interp, g *Goroutine, fn *ssa.Function, args []Value) (Value, *tailCall) {
+		iv := args[0].(IfaceV)
+		m, _ := iv.val.(*MapV)
+		if m == nil {
+			return iv, nil
+		}
+		in.gseq++
+		n := &MapV{id: in.gseq, kt: m.kt, vt: m.vt, entries: append([]mapEntry(nil), m.entries...)}
+		return IfaceV{typ: iv.typ, val: n}, nil
+	})
+}
